@@ -117,6 +117,22 @@ def run(ctx):
         if not ok:
             ctx.violation('property', 'find_neighbor_pairs(%s) = %s, expected each unordered distance-1 pair once: %s' % (ss_fp, str(g)[:200], fp),
                           dict(func='find_neighbor_pairs', seqs=ss_fp, hamming=ham, alphabet=al), site='distance.find_neighbor_pairs')
+        # the same collection object handed over again (a set of unique sequences is the natural argument; also a tuple): the second
+        # answer is the same list of pairs, and the collection still holds what it held
+        if ss and n % 2 == 1:
+            cont = set(ss) if n % 4 == 1 else tuple(ss)
+            ctx.count('find_pairs_same_%s_twice' % type(cont).__name__)
+            g1 = call_impl(lambda: ds.find_neighbor_pairs(cont, neighborhood=nbf))
+            g2 = call_impl(lambda: ds.find_neighbor_pairs(cont, neighborhood=nbf))
+            want = sorted(tuple(sorted(p)) for p in fp)
+            bad = [k for k, gg in (('first', g1), ('second', g2)) if gg[0] != 'ok' or sorted(tuple(sorted(p)) for p in gg[1]) != want]
+            if bad or sorted(cont) != sorted(set(ss) if isinstance(cont, set) else ss):
+                ctx.violation('property', 'find_neighbor_pairs on the same %s %s, called twice: %s; the collection holds %s afterwards; '
+                              'expected each unordered distance-1 pair once both times: %s' % (
+                                  type(cont).__name__, sorted(ss), '; '.join('%s call -> %s' % (k, str(gg)[:120]) for k, gg in (('first', g1), ('second', g2))),
+                                  sorted(cont), fp),
+                              dict(func='find_neighbor_pairs_twice', seqs=ss, container=type(cont).__name__, hamming=ham, alphabet=al),
+                              site='distance.find_neighbor_pairs[same object twice]')
         g = call_impl(lambda: ds.find_neighbor_pairs_index(ss, neighborhood=nbf))
         exp_idx = sorted((i, j) for i in range(len(ss)) for j in range(len(ss))
                          if tuple(sorted((ss[i], ss[j]))) in {tuple(sorted(p)) for p in fp} and ss[i] != ss[j])
